@@ -5,6 +5,7 @@ import (
 	"io"
 	"os"
 	"path"
+	"strings"
 
 	"github.com/friendsofgo/errors"
 )
@@ -54,7 +55,26 @@ func (s *FileOutputStore) Reader(jobID string, taskName string, outputName strin
 }
 
 func (s *FileOutputStore) buildPath(jobID string, taskName string, outputName string) string {
-	return path.Join(s.path, jobID, fmt.Sprintf("%s-%s.log", taskName, outputName))
+	return path.Join(s.path, jobID, fmt.Sprintf("%s-%s.log", escapeTaskName(taskName), outputName))
+}
+
+// escapeTaskName makes a task name usable as part of a file name: task names are arbitrary strings
+// from the pipeline definition, so path separators are escaped (and the escape character itself, to
+// keep distinct names distinct). Otherwise a name like "../x" would address a file outside of the
+// directory of the job, shared by other jobs.
+func escapeTaskName(taskName string) string {
+	var b strings.Builder
+	for i := 0; i < len(taskName); i++ {
+		switch c := taskName[i]; c {
+		case '/':
+			b.WriteString("%2F")
+		case '%':
+			b.WriteString("%25")
+		default:
+			b.WriteByte(c)
+		}
+	}
+	return b.String()
 }
 
 func (s *FileOutputStore) Remove(jobID string) error {
